@@ -96,6 +96,16 @@ Next ==
                /\ (StrictA => r.res.class = "ok")
                /\ typ' = (IF StrictA THEN "S" \o ToString(r.ti) ELSE Root(r).ti)
                /\ seq' = (IF StrictA THEN seq ELSE AbsIds(Root(r).abs)) /\ UNCHANGED rid
+          [] r.ev \in {"AIterProbe", "APartialProbe", "ABatch", "ACopy", "AOtherDisposed"} ->    \* observations: the array itself is not changed
+               /\ seq' = (IF StrictA THEN seq ELSE AbsIds(Root(r).abs)) /\ UNCHANGED <<rid, typ>>
+          [] r.ev = "AMutIter" ->      \* mutable iteration overwriting the current element at the positions in mask
+               /\ (StrictA => r.res.class = "ok" /\ r.probe.iters[1].ids = seq)
+               /\ seq' = (IF StrictA THEN [i \in 1..Len(seq) |->
+                                             IF \E k \in 1..Len(r.probe.mask) : r.probe.mask[k] = i - 1
+                                             THEN r.probe.newids[CHOOSE k \in 1..Len(r.probe.mask) : r.probe.mask[k] = i - 1]
+                                             ELSE seq[i]]
+                           ELSE AbsIds(Root(r).abs))
+               /\ UNCHANGED <<rid, typ>>
           [] OTHER -> FALSE
      /\ (Drifted(r) = 1 => PrintT(<<"DRIFT_AT", l, r.t, r.ev>>))   \* layer-C mismatch: reported, never a verdict
 
@@ -134,6 +144,46 @@ DetOrder == (l > 1 /\ Cur.ev = "Commit" /\ Cur.mode = "det") =>
   \A i \in 1..(Len(Cur.calls) - 1) : CallLess(Cur.calls[i], Cur.calls[i + 1])
 \* C14 (container level): a failed commit reports an external error
 FailedCommitIsExternal == (l > 1 /\ Cur.ev = "Commit" /\ Cur.res.class # "ok") => Cur.res.cat = "external"
+
+\* C13: every enumeration flavour yields the sequence; ranges yield the slice or the right error; a partially
+\* loaded array yields an in-order subsequence (everything when all slabs are loaded)
+RECURSIVE IsSubseq(_, _)
+IsSubseq(x, y) == IF x = <<>> THEN TRUE ELSE IF y = <<>> THEN FALSE
+                  ELSE IF Head(x) = Head(y) THEN IsSubseq(Tail(x), Tail(y)) ELSE IsSubseq(x, Tail(y))
+IterOK == (l > 1 /\ Cur.ev = "AIterProbe") =>
+  /\ \A i \in 1..Len(Cur.probe.iters) : Cur.probe.iters[i].class = "ok" /\ Cur.probe.iters[i].ids = seq
+  /\ \A i \in 1..Len(Cur.probe.ranges) :
+       LET q == Cur.probe.ranges[i]  c == RangeClass(seq, q.s, q.e) IN
+       q.class = c /\ (c = "ok" => q.ids = Range(seq, q.s, q.e))
+PartialOK == (l > 1 /\ Cur.ev = "APartialProbe") =>
+  \A i \in 1..Len(Cur.probe.partial) :
+    LET q == Cur.probe.partial[i] IN q.class = "ok" /\ IsSubseq(q.ids, seq) /\ (q.s = q.e => q.ids = seq)
+\* C17: bulk build and copy give equal content, a valid structure, a different identity; the source is unaffected
+BatchOK == (l > 1 /\ Cur.ev = "ABatch") =>
+  /\ Cur.res.class = "ok" /\ Len(Cur.probe.other) = 1
+  /\ LET b == Cur.probe.other[1] IN
+     /\ AbsIds(b.abs) = seq /\ AFlatten(b.F[1]) = seq /\ b.n = Len(seq)
+     /\ ArrayWellFormed(b.F[1]) /\ ArraySizesAgree(b.F[1])
+     /\ b.rid # rid /\ b.ti = typ
+\* C05 on bulk-built / copied containers: they are containers like any other
+OtherWellFormed == (l > 1 /\ Len(Cur.probe.other) = 1) => ArrayWellFormed(Cur.probe.other[1].F[1])
+Copyable(F) == F.k = "d" /\ \A i \in 1..Len(F.e) : F.e[i].c = "s"
+CopyOK == (l > 1 /\ Cur.ev = "ACopy") =>
+  /\ Cur.probe.can = Copyable(Forest(Cur))
+  /\ (Cur.probe.can => /\ Cur.res.class = "ok" /\ Len(Cur.probe.other) = 1
+                        /\ LET b == Cur.probe.other[1] IN
+                           /\ AbsIds(b.abs) = seq /\ AFlatten(b.F[1]) = seq
+                           /\ ArrayWellFormed(b.F[1]) /\ ArraySizesAgree(b.F[1]) /\ b.rid # rid /\ b.ti = typ
+                           /\ ~b.F[1].inl)
+  /\ (~Cur.probe.can => Cur.res.class # "ok")
+SourceUnaffected == (l > 1 /\ Cur.ev \in {"ABatch", "ACopy", "AOtherDisposed"}) =>
+  /\ AbsIds(Root(Cur).abs) = seq /\ AFlatten(Forest(Cur)) = seq
+  /\ (Cur.ev = "AOtherDisposed" => Cur.st.stored = Cur.st.reach)
+\* C18: a rejected request leaves no trace: content, slabs and write set are those before the request
+Rejected(r) == r.res.class \notin {"ok"} /\ r.ev \in {"AInsert", "AAppend", "ASet", "ARemove", "AGet"}
+NoTraceOfRejected == (l > 2 /\ Rejected(Cur) /\ Trace[l - 2].t = Cur.t) =>
+  /\ Root(Cur).fsum = Root(Trace[l - 2]).fsum
+  /\ Cur.st.deltas = Trace[l - 2].st.deltas /\ Cur.st.stored = Trace[l - 2].st.stored /\ Cur.st.calls = Trace[l - 2].st.calls
 
 TraceAccepted ==
   LET d == TLCGet("stats").diameter IN
